@@ -46,8 +46,17 @@ def confirm(prop, k):
     m = re.search(r"-run\s+'?\"?([\w\^\$\|]+)", demo_cmd)
     run = m.group(1) if m else "."
     tail = demo_cmd[demo_cmd.find("-run"):] if m else ""
-    pk = re.search(r"(\./[\w/]+)/?(\s|$)", tail)
-    pkgdir = pk.group(1) if pk else ("." if re.search(r"-run\s+\S+\s+\.(\s|;|$)", tail) else "./route")
+    pkgdir = "./route"
+    toks = tail.split()
+    for t in toks[2:]:  # after "-run NAME": flags, then the package argument
+        if t.startswith("-") and t not in ("--",):
+            continue
+        t = t.rstrip(";")
+        if t == ".":
+            pkgdir = "."
+        elif t.startswith("./"):
+            pkgdir = t.rstrip("/")
+        break
     rc, out = sh("git status --porcelain", cwd=wt)
     assert out.strip() == "", "worktree not clean: " + out
     rc, out = sh("git apply %s/patch.diff" % src, cwd=wt)
